@@ -25,6 +25,10 @@ CHECKS = {
    text="Bounded symbolic model checking of trackWrite/getRangeToRead with go-immutable-radix run from source: all sequences of 3 (thorough 4) writes with offset 0..200, length 1..55 and all probe offsets/lengths, plus one inductive step from an arbitrary valid pre-state of up to 3 disjoint ranges (covers histories of any length within that footprint); oracle = union of written ranges; also that the marker representation invariant is preserved.",
    note="Trusted: go/ssa, gosmt interpreter (natively cross-validated), sync.Mutex model. Outside: offsets >= 256 (multi-byte key divergence in the radix tree), negative offsets, zero-length writes, more than 3 pre-existing ranges in the step harness.",
    design="DESIGN.md §6 C22"),
+ "C06": dict(
+   text="Bounded symbolic model checking of crash and fault points of a bundle upload on the real code (implUpload/uploadBundle with the real cafs writer, then the real observers ListBundles, GetLatestBundle, DownloadMetadata (implPublishMetadata), implPublish, Label.DownloadDescriptor): in a repository holding a committed bundle with a label (both produced by the real code), a second upload of two files is interrupted at every one of its mutating store calls (metadata, label and blob stores together), with the call landing or not before the process dies (fail-stop stores), or hit by a transient fault on that one call - afterwards every previously committed metadata object, label and blob is byte-identical, listing works and shows the old bundle, the new bundle is listed / resolved as latest / fetchable iff its descriptor and all its file lists were written, the descriptor never exists without all file lists, the old bundle still downloads with its content, the label still resolves, every write under bundles/ is create-if-absent, an upload hit by a fault reports failure, and a retried upload succeeds and becomes the latest.",
+   note="Trusted: go/ssa, gosmt interpreter (natively cross-validated), fail-stop crash model with atomic object writes, BLAKE2b as injective UF, yaml.v2 as round-tripping opaque documents, ksuid ids increasing across seconds, one cooperative schedule of the upload goroutines. Outside: crash points of diamond commits (decided under C12) and of label writes (a single object write), partial object writes, explicit delete/squash/delete-files.",
+   design="DESIGN.md §6 C06"),
  "C07": dict(
    text="Bounded symbolic model checking of the real listing pipelines end to end (ListRepos, ListBundles, ListBundlesApply, ListLabels, ListLabelsApply, ListDiamonds, ListSplits with fetchKeys, basenameKeyFilter, mergeKeys, distributeKeys, fetch*Batch, get*Async, the descriptor downloads and sort.Sort on the model slices) over an in-memory object store: repositories {a, a-b, ab, b} in every combination; in repo r (next to r2, whose name extends it) three bundles each absent / committed / leftover of an interrupted upload, three labels in every combination, two diamonds each absent / running / running+done, the first with two splits (one named split-2) each absent / running / running+done and each with two split file lists - for every page size from 1 to the number of keys + 1 and list concurrency 1..2 the result is exactly the existing objects of that kind and repository, each once, a bundle without descriptor is skipped, diamonds and splits come back in their latest state, bundles in key order. Known findings C07-F2, C07-F3 (order of labels / prefix-named repositories).",
    note="Trusted: go/ssa, gosmt interpreter (natively cross-validated), cooperative goroutine/channel model (one schedule), yaml.v2 as round-tripping opaque documents, in-memory store with GCS listing semantics. Outside: more objects than the stated universe, page sizes above it, concurrency above 2, versioned label listing, interruption through the done channel.",
